@@ -250,6 +250,8 @@ HAND = [
     # arguments): something that walks the tree - analysis - must leave them as they were
     "{{ \"a${d.a}b${d.b}c\" }}|{% assign arr = d.a, d.b, 3 %}{{ arr | join: ',' }}|{% case d.a %}{% when 7, 1 %}w{% else %}e{% endcase %}"
     "|{{ d.b | append: d.a, | prepend: 'p${d.a}q${d.b}' | replace: 'x', 'y' }}{% for i in d.c limit: 2 offset: 1 %}{{ i }}{% endfor %}",
+    # 25 literal text with whitespace around unmarked markup
+    "  a \n {{ d.a }} \n b {% if d.a %}  x \n {% endif %}  \n{# c #}  z \n{% raw %}  r  {% endraw %} .",
 ]
 PROCESS_PROBES = (18, 19, 4, 5, 9, 17)  # (the ones that only read first, the ones that might leave something behind last) rendered on brand-new objects before and after every history
 HAND_DATE_NOW = {8}
